@@ -36,6 +36,8 @@ ACCEPTED_RAISE = {
 }
 
 ACCEPTED_NULL = {
+    'engine.grouping._group:stored unchecked in a container':
+        'a matched group starts with its opening token, which is neither whitespace nor a comment, so the backward lookup from the end always finds a token; the tuple is only used for identity membership tests',
     'engine.grouping.group_comments:argument `end` of sql.TokenList.group_tokens (dereferenced there without a guard)':
         'eidx is the index of a non-comment token found after tidx, so token_prev(eidx) finds at least the comment token at tidx',
     'filters.reindent.ReindentFilter._process_identifierlist:attribute':
@@ -62,6 +64,9 @@ def run(ctx):
     check_nullness(ctx, reach)
     check_bounds(ctx, reach)
     check_unbound(ctx, reach)
+    from .. import rules_lexer as RL
+    ctx.rule('R7.7', 'no caller can obtain a half-initialised default lexer (lock discipline of get_default_instance)', floor=5)
+    RL.check_singleton_lock(ctx, 'R7.7')
     # R7.6
     before = len(ctx.obs)
     for r in ('R15.1', 'R15.2', 'R15.3'):
